@@ -6,6 +6,7 @@ pub mod stream;
 pub mod gen_stream;
 pub mod doc;
 pub mod files;
+pub mod picture;
 pub mod props;
 
 use ctx::Ctx;
